@@ -1,22 +1,46 @@
 #!/bin/sh
-# Rebuild the Coq model (parser side), the extracted OCaml driver and the Go tool.
+# Build the two sides of the parser-side differential test.
+#   Go side   : always rebuilt, against the working tree of $VERIF_REPO (default /repo)
+#   model side: the Coq model extracted to OCaml + driver, rebuilt only if stale
+# Output goes to $PV_OUT (default /verif/build/parsevec); nothing is written
+# under tools/parsevec or /tmp.
 set -e
 export GOFLAGS=-mod=mod GOPROXY=off GOSUMDB=off GOTOOLCHAIN=local
 HERE=$(cd "$(dirname "$0")" && pwd)
-COQ=/verif/coq
-OUT=${PV_OUT:-/var/tmp/parsevec-build}
-mkdir -p "$OUT"
-cd "$COQ"
-for f in lib/Base.v model/Json.v model/Ast.v lib/F64.v lib/Strconv.v gen/Unicode.v; do
-  if [ ! -f "${f}o" ] || [ "$f" -nt "${f}o" ]; then timeout 900 coqc -Q . SJ "$f"; fi
+ROOT=$(cd "$HERE/../.." && pwd)
+COQ="$ROOT/coq"
+OUT=${PV_OUT:-$ROOT/build/parsevec}
+REPO=${VERIF_REPO:-/repo}
+REPO=$(cd "$REPO" && pwd)
+mkdir -p "$OUT/gosrc" "$OUT/ml"
+
+# ---- Go side (staged copy so that go.mod can point at $REPO)
+cp "$HERE"/*.go "$OUT/gosrc/"
+sed "s|=> /repo\$|=> $REPO|" "$HERE/go.mod" > "$OUT/gosrc/go.mod"
+if [ -f "$REPO/go.sum" ]; then cp "$REPO/go.sum" "$OUT/gosrc/go.sum"; else cp "$HERE/go.sum" "$OUT/gosrc/go.sum"; fi
+(cd "$OUT/gosrc" && go build -o "$OUT/parsevec.new" . && mv "$OUT/parsevec.new" "$OUT/parsevec")
+
+# ---- model side
+MODEL_SRC="lib/Base.v model/Json.v model/Ast.v lib/F64.v lib/Strconv.v gen/Unicode.v lib/Utf8.v lib/GoLib.v model/Lexer.v model/Parser.v model/Printer.v model/PathAPI.v proofs/RoundTrip.v proofs/Tokens.v"
+stale=0
+[ -x "$OUT/pv_driver" ] || stale=1
+for f in $MODEL_SRC; do
+  [ "$COQ/$f" -nt "$OUT/pv_driver" ] && stale=1
 done
-# the parser-side files are always rebuilt, in dependency order (about 10 s)
-for f in lib/Utf8.v lib/GoLib.v model/Lexer.v model/Parser.v model/Printer.v model/PathAPI.v proofs/RoundTrip.v; do
-  timeout 900 coqc -Q . SJ "$f"
-done
-cd "$HERE/coq"
-timeout 900 coqc -Q "$COQ" SJ ParseInst.v 2>&1 | grep -v "Extraction Output Directory\|unknown-option" || true
-ocamlfind ocamlopt -w -a -package str model.mli model.ml driver.ml -o "$OUT/pv_driver"
-cd "$HERE"
-go build -o "$OUT/parsevec" .
-echo "built in $OUT"
+[ "$HERE/coq/ParseInst.v" -nt "$OUT/pv_driver" ] && stale=1
+[ "$HERE/coq/driver.ml" -nt "$OUT/pv_driver" ] && stale=1
+if [ "$stale" = 1 ]; then
+  cd "$COQ"
+  for f in $MODEL_SRC; do
+    # normally compiled already by the proof leg's make; compile what is missing or older than its source
+    if [ ! -f "${f}o" ] || [ "$f" -nt "${f}o" ]; then timeout 900 coqc -Q . SJ "$f"; fi
+  done
+  cp "$HERE/coq/ParseInst.v" "$HERE/coq/driver.ml" "$OUT/ml/"
+  cd "$OUT/ml"
+  timeout 900 coqc -Q "$COQ" SJ ParseInst.v 2>&1 | grep -v "Extraction Output Directory\|unknown-option" || true
+  [ -f model.ml ] || { echo "extraction failed"; exit 1; }
+  ocamlfind ocamlopt -O2 -w -a -package str model.mli model.ml driver.ml -o "$OUT/pv_driver.new"
+  mv "$OUT/pv_driver.new" "$OUT/pv_driver"
+  echo "model rebuilt"
+fi
+echo "built in $OUT (repo $REPO)"
